@@ -70,6 +70,9 @@ def check(w):
             if size < 3 and sh in ("sizes", "delta"):
                 continue
             scen.append({"shape": sh, "framing": {"kind": "fixed", "size": size}})
+        # the server's frames MERGED into frames of a fixed size (its own write sizes disappear completely)
+        for size in ((7, 32769, 100000, 262144) if sh in ("literal", "sizes", "delta") else (7, 262144)):
+            scen.append({"shape": sh, "framing": {"kind": "coalesce", "size": size}})
         for nrun in (1, 3, 99, 100, 101, 500):
             for empty in (False, True):
                 scen.append({"shape": sh, "framing": {"kind": "runs", "run": nrun, "empty": empty, "first": 0 if sh in ("small", "listing", "error") else 40}})
@@ -87,7 +90,7 @@ def check(w):
         vlib_unreproduced(v, rej, rej2)
         for o in obs2:
             if o["id"] in rej2:
-                what = "server-frames-malformed" if not (o["parsed"] and o["maxlen"] <= 262144) else ("injected-error-lost" if o["injerr"] else ("spurious-failure" if o["result"] != "ok" else "different-result"))
+                what = "client-died" if o["result"] in ("crashed", "hung") else "server-frames-malformed" if not (o["parsed"] and o["maxlen"] <= 262144) else ("injected-error-lost" if o["injerr"] else ("spurious-failure" if o["result"] != "ok" else "different-result"))
                 fr = o["scn"]["framing"]
                 v.violation({"what": what, "shape": o["shape"], "framing": o["framing"], "run": fr.get("run"), "result": o["result"]},
                             {"scenario": o["scn"], "err": o["err"][:500], "server_frames": o["nframes"], "maxlen": o["maxlen"], "same": o["same"], "msgok": o["msgok"]})
@@ -113,7 +116,7 @@ def check(w):
         "framing_patterns_from_tlc": len(pats), "evaluations": len(obs), "distinct_nontrivial": sum(1 for o in obs if o["outframes"] != o["nframes"]),
         "frames_forwarded": sum(o["outframes"] for o in obs), "error_injections": sum(1 for o in obs if o["injerr"]),
         "rule": "a real client pulls from a real server through a proxy that re-cuts the server's frames: every TLC framing pattern (data frames of 1..3 units, empty and info frames, error at any point; stream of 4 units scaled to the real stream), "
-                "fixed frame sizes 1, 2, 3, 5, 4096, 262144, runs of 1..500 info or empty frames before data frames, an injected error frame at chosen stream offsets; session shapes: small tree, files of 4093..4097 and 256 KiB + 4 KiB bytes, "
+                "fixed frame sizes 1, 2, 3, 5, 4096, 262144 (splitting the server's frames) and 7, 32769, 100000, 262144 (merging them), runs of 1..500 info or empty frames before data frames, an injected error frame at chosen stream offsets; session shapes: small tree, files of 4093..4097 and 256 KiB + 4 KiB bytes, "
                 "600 KiB literal, delta, listing, server-side error; non-trivial = the client saw a different number of frames than the server sent",
         "action_coverage": cov, "negative_controls": len(bad), "worker_crashes": summ["crashed"],
     }
